@@ -641,8 +641,16 @@ class OneNT(collections.namedtuple('OneNTBase', ['v'])):
 def onelevel(tape, viol, keys, probes, oplog):
     ctx = gen.swarm_ctx(tape, custom_classes=(U.CA, U.CB))
     tree = gen.gen_tree(tape, 2 + tape.draw(12, 'budget'), ctx)
-    special = tape.draw(8, 'ol-special')
-    if special == 3:
+    special = tape.draw(10, 'ol-special')
+    if special in (8, 9):
+        # an OrderedDict whose order was changed AFTER construction: its order lives in its own linked list, not in the
+        # underlying dict (move_to_end does not touch the latter)
+        tree = OrderedDict([(k, ctx.leaf()) for k in (('b', 'a', 'c') if special == 8 else (3, 1, 2))])
+        tree.move_to_end(next(iter(tree)), last=bool(tape.draw(2, 'ol-mte-last')))
+        if tape.draw(2, 'ol-mte-twice'):
+            tree.move_to_end(list(tree)[1], last=False)
+        probes['one-level:moved-odict'] += 1
+    elif special == 3:
         tree = SwapNT(ctx.leaf(), [ctx.leaf()])
     elif special == 4:
         tree = OneNT(tree)
